@@ -296,10 +296,18 @@ def esc(run, p):
     run.floor('C03-ESC', n, 3)
 
 
-def denotes(bracket, flags):
+FUTURE_WARNED = []
+
+
+def denotes(bracket, flags, extra=''):
     """-> (set of probe characters the one-item regex matches, negated?, has range?) or None if it is not one set item."""
+    import warnings
     try:
-        parsed = sre_parse.parse(bracket, flags)
+        with warnings.catch_warnings(record=True) as wl:
+            warnings.simplefilter('always')
+            parsed = sre_parse.parse(bracket, flags)
+        for w in wl:
+            FUTURE_WARNED.append((bracket, str(w.message)))
     except re.error:
         return None
     if len(parsed) != 1:
@@ -313,7 +321,7 @@ def denotes(bracket, flags):
         return None
     neg = any(o is C.NEGATE for o, a in av)
     rng = any(o is C.RANGE for o, a in av)
-    probe = set(']\\^-xX09_ /')
+    probe = set(']\\^-xX09_ /') | set(extra)
     return {c for c in probe if reglang._in_set(av, c)}, neg, rng
 
 
@@ -327,15 +335,24 @@ def bracket(run, p, I, flags, pid):
     n = 0
     for d in PY_DIALECTS:
         for mask in range(1, 16):
-            for plain in ('', 'x'):
+            plains = ('', 'x')
+            if run.tier == 'thorough':
+                # deeper: every other regex metacharacter and some non-ASCII characters as the ordinary one, every order
+                plains = ('', 'x', '[', '.', '$', '*', '+', '?', '{', '}', '(', ')', '|', ' ', '/', '&', '~', '"', "'", '\u00e9', '\u0663', '\t')
+            for plain in plains:
                 chars = ''.join(c for i, c in enumerate(specials) if mask >> i & 1) + plain
-                for order in (chars, chars[::-1]):
+                orders = (chars, chars[::-1])
+                if run.tier == 'thorough':
+                    import itertools
+                    orders = sorted({''.join(q) for q in itertools.permutations(chars)})
+                for order in orders:
                     try:
+                        I.steps = 0
                         out = I.call(f, [order], {'dialect': d})
                     except Unsupported as e:
                         raise AnalysisError('escaped_bracket not interpretable: %s' % e)
                     n += 1
-                    den = denotes(out, flags)
+                    den = denotes(out, flags, order)
                     want = set(order)
                     ok = den is not None and den[0] == want and not den[1] and not den[2]
                     if not ok:
@@ -345,6 +362,10 @@ def bracket(run, p, I, flags, pid):
                                    ('is a negated class' if den[1] else ('contains a range' if den[2] else
                                                                          'denotes %s instead of %s' % (sorted(den[0]), sorted(want))))),
                                fn=f)
+    if FUTURE_WARNED:
+        run.note(rid, 'the re module warns about %d generated classes (e.g. %r: %s); they parse and denote their input today' % (
+            len(FUTURE_WARNED), FUTURE_WARNED[0][0], FUTURE_WARNED[0][1]), fn=f)
+        del FUTURE_WARNED[:]
     bad = [o for o in run.obs if o.rule == rid and not o.ok]
     if not bad:
         run.ob(rid, 'escaped_bracket:all', True, '%d inputs evaluated by abstract interpretation of escaped_bracket; all denote their input set' % n, fn=f)
